@@ -86,6 +86,8 @@ type vhBackend struct {
 	faults bool // may fail
 	tag    string // names the symbolic state returned by the next call (set by the harness before each step)
 	tagN   int
+	last   *pokerface.GameState // the state handed back by the latest successful call
+	fix    func(*pokerface.GameState) // harness hook: shape the state before it is handed back
 }
 
 func (b *vhBackend) step(kind string, gs *pokerface.GameState, opts *pokerface.GameOptions, chips int64) (*pokerface.GameState, error) {
@@ -100,6 +102,10 @@ func (b *vhBackend) step(kind string, gs *pokerface.GameState, opts *pokerface.G
 		mm = 2 // a created hand has at least two entries
 	}
 	gs2 := vhArbitraryGS(b.tag, mm)
+	if b.fix != nil {
+		b.fix(gs2)
+	}
+	b.last = gs2
 	if kind == "create" {
 		// the hand engine always designates a current player once a hand is created (the
 		// table's state handler dereferences that player); natively the state updater
